@@ -38,3 +38,24 @@ def extract_struct(unit, src, name, derive=None, kind="struct"):
     widen(f)
     unit.emit(f, prefix=(derive + "\n") if derive else "")
     return f
+
+
+def widen_private_fields(frag):
+    """R4: private struct fields => pub."""
+    import re
+    body_from = frag.orig.index("{")
+    for m in re.finditer(r"(?m)^(\s+)([a-z_][a-z0-9_]*)\s*:", frag.orig):
+        if m.start() > body_from:
+            frag.replace_span(m.start(2), m.start(2), "pub ", "R4", "visibility widening")
+    return frag
+
+
+def extract_struct_priv(unit, src, name, derive=None, kind="struct"):
+    from vf.unit import strip_attrs_and_docs
+    f = src.item(kind, name)
+    strip_attrs_and_docs(f)
+    widen_private_fields(f)
+    if not f.orig.startswith("pub"):
+        f.replace_span(0, 0, "pub ", "R4", "visibility widening")
+    unit.emit(f, prefix=(derive + "\n") if derive else "")
+    return f
